@@ -20,23 +20,26 @@ import (
 	"time"
 
 	"github.com/vektah/gqlparser/v2/ast"
+	"github.com/vektah/gqlparser/v2/parser"
+	"github.com/vektah/gqlparser/v2/validator"
 
 	"verif/internal/diffrun"
 	"verif/internal/drive"
 	"verif/internal/ev"
 	"verif/internal/opgen"
 	"verif/internal/ref"
+	"verif/internal/sjson"
 	"verif/internal/univ"
 	"verif/work/farm/cur/registry"
 )
 
 type childResult struct {
-	Counts     map[string]int64  `json:"counts"`
-	Distinct   []string          `json:"distinct"`
-	Violations []map[string]any  `json:"violations"`
-	Inconcl    []string          `json:"inconclusive"`
-	Samples    []map[string]any  `json:"samples"`
-	Evals      int64             `json:"evals"`
+	Counts     map[string]int64 `json:"counts"`
+	Distinct   []string         `json:"distinct"`
+	Violations []map[string]any `json:"violations"`
+	Inconcl    []string         `json:"inconclusive"`
+	Samples    []map[string]any `json:"samples"`
+	Evals      int64            `json:"evals"`
 }
 
 func main() {
@@ -251,6 +254,75 @@ func child(name, outPath string) {
 			}
 		}
 	}
+	// subscription events: every resolver point under every event, error and panic
+	for si, q := range []string{
+		`subscription { ticks(n: 2) { vid rs bo { vid rs } rbl { vid rs } } }`,
+		`subscription { ticks { rsn cn { d { nn } } } }`,
+		`subscription { tick2 }`,
+	} {
+		doc, perr := parser.ParseQuery(&ast.Source{Input: q})
+		if perr != nil || len(validator.Validate(env.Schema, doc)) > 0 {
+			count("subscription_template_rejected", 1)
+			continue
+		}
+		base := univ.SeedPlan{Seed: uint64(seed)*77 + uint64(si), MaxList: 2, NullPermille: 30}
+		clean := ref.ExecuteSubscription(env, &base, doc, "", nil, ref.Options{}, 3)
+		var points []string
+		for _, r := range clean {
+			points = append(points, r.Invocations...)
+		}
+		points = append([]string{"<none>"}, uniq(points)...)
+		for _, pt := range points {
+			for _, f := range []univ.Fault{univ.FaultError, univ.FaultPanic} {
+				p := base
+				if pt != "<none>" {
+					p.ForceFault = map[string]univ.Fault{pt: f}
+				} else if f == univ.FaultPanic {
+					continue
+				}
+				cid := diffrun.Case{Probe: name, Kind: "subscription", Plan: p, Query: q, Extra: map[string]any{"fault_point": pt, "fault": faultName(f)}}
+				b, _ := json.Marshal(cid)
+				caseLog.Write(append(b, '\n'))
+				caseLog.Sync()
+				want := ref.ExecuteSubscription(env, &p, doc, "", nil, ref.Options{}, 3)
+				before := srv.Recovers.Load()
+				got := srv.Run(context.Background(), &univ.Run{Plan: &p}, q, "", nil, 30*time.Second)
+				cr.Evals++
+				if got.TimedOut {
+					cr.Inconcl = append(cr.Inconcl, "watchdog fired: "+q)
+					continue
+				}
+				why := compareEvents(want, got)
+				wantPanics := 0
+				for _, w := range want {
+					for _, e := range w.Errors {
+						if strings.HasPrefix(e.Class, "panic:") {
+							wantPanics++
+						}
+					}
+				}
+				if why == "" {
+					if n := int(srv.Recovers.Load() - before); n != wantPanics {
+						why = fmt.Sprintf("recover hook invoked %d times for %d reached panics", n, wantPanics)
+					}
+				}
+				if why != "" {
+					var payloads []string
+					for _, pl := range got.Payloads {
+						payloads = append(payloads, fmt.Sprintf("%s errors=%v", pl.Raw, pl.Errors))
+					}
+					cr.Violations = append(cr.Violations, map[string]any{"case": cid, "why": "subscription events under the injected fault differ from the reference: " + why, "real_payloads": payloads})
+					continue
+				}
+				if pt != "<none>" {
+					count("fault_"+faultName(f)+"_subscription_event", 1)
+					cr.Distinct = append(cr.Distinct, fmt.Sprintf("%s|sub%d|%s|%d", name, si, pt, f))
+				}
+				count("subscription_payloads_compared", int64(len(want)))
+			}
+		}
+	}
+
 	// the process must still serve after all of that
 	op, doc, _ := diffrun.GenValid(env.Schema, 424242, ast.Query, opgen.Config{MaxDepth: 2})
 	if doc != nil {
@@ -263,6 +335,41 @@ func child(name, outPath string) {
 	}
 	b, _ := json.Marshal(cr)
 	os.WriteFile(outPath, b, 0o644)
+}
+
+// compareEvents compares the payload sequence of a subscription with the reference, event by event.
+func compareEvents(want []*ref.Result, got *drive.Real) string {
+	if len(want) == 1 && want[0].RequestError != "" {
+		if len(got.RequestErrors) == 0 {
+			return "reference refuses the request, the server did not"
+		}
+		return ""
+	}
+	if len(got.RequestErrors) > 0 {
+		return fmt.Sprintf("request refused: %v", got.RequestErrors)
+	}
+	if len(want) != len(got.Payloads) {
+		return fmt.Sprintf("%d payloads, expected %d", len(got.Payloads), len(want))
+	}
+	for i, w := range want {
+		pl := got.Payloads[i]
+		if w.Data == nil {
+			if pl.Data != nil && pl.Data.Kind != sjson.Null {
+				return fmt.Sprintf("payload %d: data present where only an error is expected", i)
+			}
+		} else {
+			if !pl.ParseOK || pl.Data == nil {
+				return fmt.Sprintf("payload %d: no valid data", i)
+			}
+			if d := sjson.Diff(w.Data, pl.Data, true, "data"); d != "" {
+				return fmt.Sprintf("payload %d: %s", i, d)
+			}
+		}
+		if d := drive.DiffErrors(w.Errors, pl.Errors); d != "" {
+			return fmt.Sprintf("payload %d errors: %s", i, d)
+		}
+	}
+	return ""
 }
 
 func uniq(in []string) []string {
